@@ -14,6 +14,9 @@ AlphabetSmall == {97, 233, 128512}
 
 TextsDef   == {<<>>, <<97>>, <<0>>, <<233, 8364>>, <<128512>>, <<97, 0, 233>>}
 TextsSmall == {<<>>, <<233>>, <<97, 0, 128512>>}
+\* texts for the C-string constructors: no NUL, NUL first, NUL last, NUL inside, two NULs
+CTextsDef  == {<<>>, <<97>>, <<8364, 128512>>, <<0>>, <<0, 97>>, <<233, 0>>, <<97, 0, 0, 233>>}
+CTextsWalk == {<<>>, <<8364>>, <<0, 97>>, <<233, 0>>}
 
 AllStrings   == Strings(MaxChars)
 SomeStrings  == {<<>>, <<233>>, <<97, 8364>>, <<128512, 0, 97>>, <<8364, 233, 128512>>}
@@ -23,6 +26,10 @@ AllOps == {"push", "push_str", "insert", "insert_str", "remove", "pop", "truncat
            "replace_range", "extend_from_within", "split_off", "write_fmt", "extend_zeroed", "reserve",
            "into_cstr", "alloc_cstr", "alloc_cstr_from_str", "alloc_cstr_fmt", "alloc_cstr_fmt_mut"}
 NoOps == {}
+RetainOnly == {"retain"}
+AllOuts == {"ok", "panic", "full"}
+OkOnly  == {"ok"}
+OkPanic == {"ok", "panic"}
 FromStrOnly == {"from_str"}
 DecodeCtors == AllCtors \ {"from_str"}
 
@@ -30,6 +37,7 @@ AllKinds  == {"box", "fixed", "grow"}
 KindBox   == {"box"}
 KindFixed == {"fixed"}
 KindGrow  == {"grow"}
+BoxGrow   == {"box", "grow"}
 CapsDef   == {0, 3, 6, 12}
 CapsSmall == {2, 6}
 CapsMid   == {3, 8}
